@@ -16,7 +16,7 @@ TRUSTED = [
 
 # ------------------------------------------------------------------------------ generators
 def gen_engine(r):
-    n = r.choice([2, 3, 3, 4, 4, 5, 6])
+    n = r.choice([2, 3, 3, 4, 4, 5, 6, 7])
     algs = []
     ntasks = max(1, n - r.randrange(0, 2))
     for i in range(n):
@@ -28,7 +28,7 @@ def gen_engine(r):
         values = ['v0'] if r.random() < 0.5 else ['v0', 'v1']
         inputs = []
         if i > 0:
-            for j in r.sample(range(i), min(i, r.choice([1, 1, 2]))):
+            for j in r.sample(range(i), min(i, r.choice([1, 1, 2, 2, 3]))):
                 if r.random() < 0.2 and i > 1:
                     continue
                 if r.random() < 0.5:
@@ -110,6 +110,73 @@ CORPUS = [
 ]
 
 
+def _alg(i, kind='task', inputs=(), values=('v0',), feedback=()):
+    return dict(task=f't{i}', name=f'a{i}', kind=kind, values=list(values), inputs=list(inputs),
+                feedback=list(feedback))
+
+
+# graph shapes that random generation hits too rarely
+SHAPES = {
+    'chain3': [_alg(0), _alg(1, inputs=[(0, 'v0')]), _alg(2, inputs=[(1, None)])],
+    'fork-analysis': [_alg(0, values=('v0', 'v1')), _alg(1, 'analysis', [(0, 'v0')]), _alg(2, inputs=[(0, 'v1')])],
+    'two-roots': [_alg(0), _alg(1), _alg(2, inputs=[(0, None), (1, 'v0')])],
+    # a node reachable from the root by a short and by a long path (level is assigned on the first visit)
+    'short-long-a': [_alg(0), _alg(1, inputs=[(0, None)]), _alg(2, inputs=[(1, None)]),
+                     _alg(3, inputs=[(0, None), (2, None)])],
+    'short-long-b': [_alg(0), _alg(3, inputs=[(0, None), (2, None)]), _alg(1, inputs=[(0, None)]),
+                     _alg(2, inputs=[(1, None)])],
+    # two branches, three deep each, that share no ancestor and merge
+    'merge-deep': [_alg(0), _alg(1, inputs=[(0, None)]), _alg(2, inputs=[(1, None)]),
+                   _alg(3), _alg(4, inputs=[(3, None)]), _alg(5, inputs=[(4, None)]),
+                   _alg(6, inputs=[(2, None), (5, None)])],
+    # B -> C with C's value fed back to B
+    'feedback-loop': [_alg(0), _alg(1, inputs=[(0, None)], feedback=[(2, 'v0')]), _alg(2, inputs=[(1, None)])],
+    'analysis-chain': [_alg(0), _alg(1, 'analysis', [(0, None)]), _alg(2, 'analysis', [(1, None)]),
+                       _alg(3, inputs=[(1, None)])],
+    'regress-leaf': [_alg(0), _alg(1, inputs=[(0, None)]), _alg(2, 'regress', [(1, None)])],
+}
+# 'short-long-b' lists algorithms out of dependency order on purpose: fix the indices
+SHAPES['short-long-b'] = [
+    dict(task='t0', name='a0', kind='task', values=['v0'], inputs=[], feedback=[]),
+    dict(task='t1', name='a1', kind='task', values=['v0'], inputs=[(0, None)], feedback=[]),
+    dict(task='t2', name='a2', kind='task', values=['v0'], inputs=[(1, None)], feedback=[]),
+    dict(task='t3', name='a3', kind='task', values=['v0'], inputs=[(2, None), (0, None)], feedback=[]),
+]
+
+
+def scenarios(algs):
+    """deterministic histories shaped like the ways these properties fail"""
+    n = len(algs)
+    up, _down = closure(algs)
+    out = [
+        ('pipeline', [('orgall', None, 'all'), ('pump', 'success-new', None)]),
+        ('rerequest-while-executing', [('orgall', None, 'all'), ('disp',), ('orgall', None, 'all'), ('disp',),
+                                       ('pump', 'success', None)]),
+        ('first-fails', [('orgall', 7, 'all'), ('disp',), ('reply0', 'failure'), ('pump', 'success-new', None)]),
+        ('empty-targets', [('orgall', None, 'none'), ('disp',), ('pump', 'success', None)]),
+    ]
+    pairs = [(r_, x) for x in range(n) for r_ in sorted(up[x])][:10]
+    for r_, x in pairs:
+        out.append((f'descendant-then-ancestor', [('org', x, None, [1]), ('org', r_, None, [1]), ('disp',),
+                                                  ('pump', 'success', None)]))
+        out.append((f'ancestor-executing', [('org', r_, None, [1]), ('disp',), ('org', x, None, [1]), ('disp',),
+                                            ('org', r_, None, [1]), ('disp',), ('pump', 'success-new', None)]))
+    for i in range(n):
+        out.append(('node-fails', [('orgall', None, 'all'), ('pump', 'success-new', i)]))
+        out.append(('node-invalid-rerun', [('orgall', 3, 'all'), ('pump', 'success-new', i),
+                                           ('org', i, None, [1]), ('pump', 'success-new', None)]))
+    # a database fault inside dispatch (db.next raises): monitors only
+    roots = [i for i in range(n) if not up[i]]
+    for r_ in roots[:2]:
+        kids = [x for x in range(n) if r_ in up[x]]
+        others = [u for u in range(n) if u != r_ and u not in kids]
+        if kids and others:
+            out.append(('dbfault-in-dispatch', [('org', others[0], None, [1]), ('disp',), ('org', r_, None, [1]),
+                                                ('org', kids[0], None, [1]), ('dbfail',), ('disp',),
+                                                ('reply0', 'success'), ('disp',), ('pump', 'success', None)]))
+    return out
+
+
 # ------------------------------------------------------------------------------ one history
 class Run:
     def __init__(self, env, res, want, algs):
@@ -127,6 +194,7 @@ class Run:
         self.impl_obs = []
         self.runid_of = {}
         self.tainted = False    # a worker broke the wire protocol: monitors off, correspondence on
+        self.no_model = False   # a database fault was injected: monitors on, correspondence off
 
     # ---- helpers
     def hit(self, prop, sig, what):
@@ -374,6 +442,21 @@ class Run:
         cluster = sorted([m.jobid, m.target if m.target else ALL, m.runid] for m in env.F._cluster)
         self.impl_obs.append({'snap': snap, 'out': out, 'chron': len(env.chron), 'cluster': cluster})
 
+    def pump(self, policy, fail_node, limit):
+        """dispatch and answer everything in flight until nothing moves"""
+        env = self.env
+        for _ in range(limit):
+            released = self.do_dispatch()
+            if not self.inflight and not released:
+                return
+            for (x, t) in list(self.inflight):
+                if fail_node is not None and self.idx[x] == fail_node:
+                    self.do_reply(x, t, 'failure' if policy != 'invalid' else 'invalid', [])
+                elif policy == 'success-new':
+                    self.do_reply(x, t, 'success', self.vals_of(x))
+                else:
+                    self.do_reply(x, t, 'success', [])
+
     def drain(self, limit):
         """C04 quiescence: always-answering workers, no more external events"""
         env = self.env
@@ -400,6 +483,14 @@ class Run:
 def model_line(env, run):
     tnums = [run.tnum[t] for t in env.targets]
     return common.sx(['sched', 'run', len(env.tags), env.graph(), tnums, run.model_ops])
+
+
+class Rec:
+    """what the correspondence needs from one executed history (picklable)"""
+
+    def __init__(self, env, run):
+        self.tags, self.targets = list(env.tags), list(env.targets)
+        self.impl_obs, self.trace = run.impl_obs, run.trace
 
 
 def compare(res, env, run, out, case):
@@ -462,6 +553,14 @@ def run_history(env, res, want, algs, ops, r, lines, pending, tag):
                        for t in op[3]]
             targets = [t for t in targets if t == ALL or t in env.targets]
             run.do_organize(names, op[2], targets)
+        elif kind == 'orgall':
+            tg = list(env.targets) if op[2] == 'all' else []
+            run.do_organize(list(env.tags), op[1], tg)
+        elif kind == 'pump':
+            run.pump(op[1], op[2], 4 * len(env.tags) * (len(env.targets) + 2) + 8)
+        elif kind == 'dbfail':
+            run.no_model = True
+            env.fail_next_db = True
         elif kind == 'disp':
             run.do_dispatch()
         elif kind == 'reply':
@@ -479,6 +578,11 @@ def run_history(env, res, want, algs, ops, r, lines, pending, tag):
                 run.do_reply(x, t, 'success', run.vals_of(x))
             else:
                 run.do_reply(x, t, op[1], [])
+        elif kind == 'replyL':
+            if not run.inflight:
+                continue
+            x, t = run.inflight[-1]
+            run.do_reply(x, t, op[1], [])
         elif kind == 'stray':
             # a reply for a unit that is not in flight (protocol violation by a worker): only the
             # correspondence looks at it
@@ -492,8 +596,9 @@ def run_history(env, res, want, algs, ops, r, lines, pending, tag):
     if ('C04' in want or 'C02' in want) and not run.tainted:
         run.drain(4 * len(env.tags) * (len(env.targets) + 2) + 8)
     case = {'engine': algs, 'targets': env.targets, 'ops': run.trace}
-    lines.append(model_line(env, run))
-    pending.append((env, run, case))
+    if not run.no_model:
+        lines.append(model_line(env, run))
+        pending.append((Rec(env, run), Rec(env, run), case))
     nontrivial = any(o['out'] not in (None, [], 'lost') for o in run.impl_obs)
     res.case(json.dumps(run.trace, sort_keys=True, default=str), nontrivial=nontrivial,
              sample={'engine': [(a['task'] + '.' + a['name'], a['kind'], a['inputs']) for a in algs],
@@ -525,10 +630,15 @@ def run_all(ctx, res, want, salt):
     envs = []
     import sys
     import io
-    for e in range(n_engines):
-        algs = gen_engine(r)
-        ntg = r.choice([0, 1, 2, 2, 3])
-        targets = [f'T{i + 1}' for i in range(ntg)]
+    shapes = list(SHAPES.items())
+    for e in range(n_engines + len(shapes)):
+        if e < len(shapes):
+            shape, algs = shapes[e]
+            targets = ['T1', 'T2']
+        else:
+            shape, algs = None, gen_engine(r)
+            ntg = r.choice([0, 1, 2, 2, 3])
+            targets = [f'T{i + 1}' for i in range(ntg)]
         old = sys.stdout
         sys.stdout = io.StringIO()  # the deprecation banner of the scanner
         try:
@@ -537,6 +647,9 @@ def run_all(ctx, res, want, salt):
             sys.stdout = old
         envs.append(env)
         lines, pending = [], []
+        if shape is not None or thorough:
+            for name, ops in scenarios(algs):
+                run_history(env, res, want, algs, ops, r, lines, pending, 'scenario:' + name)
         if e < len(CORPUS) * 2:
             ops = CORPUS[e % len(CORPUS)]
             ops = [(o[0], (len(algs) - 1 if o[1] == -1 else min(o[1], len(algs) - 1)), *o[2:])
@@ -548,6 +661,8 @@ def run_all(ctx, res, want, salt):
         batches.append((lines, pending))
         if env.self_children:
             res.count('graphs-with-self-children')
+    if ctx['tier'] == 'thorough':
+        batches.extend(exhaustive(res, want, ctx))
     if ctx['lean']:
         all_lines = [l for lines, _p in batches for l in lines]
         outs = common.driver(all_lines, 'Sched')
@@ -559,6 +674,88 @@ def run_all(ctx, res, want, salt):
         res.traces = k
     for env in envs:
         env.close()
+
+
+# ------------------------------------------------------------------------------ small scope
+SMALL = [
+    # chain a0 -> a1 -> a2
+    [dict(task='t0', name='a0', kind='task', values=['v0'], inputs=[], feedback=[]),
+     dict(task='t1', name='a1', kind='task', values=['v0'], inputs=[(0, 'v0')], feedback=[]),
+     dict(task='t2', name='a2', kind='task', values=['v0'], inputs=[(1, None)], feedback=[])],
+    # a task feeding an analysis and a task (fork)
+    [dict(task='t0', name='a0', kind='task', values=['v0', 'v1'], inputs=[], feedback=[]),
+     dict(task='t1', name='a1', kind='analysis', values=['v0'], inputs=[(0, 'v0')], feedback=[]),
+     dict(task='t2', name='a2', kind='task', values=['v0'], inputs=[(0, 'v1')], feedback=[])],
+    # diamond top: two roots, one consumer
+    [dict(task='t0', name='a0', kind='task', values=['v0'], inputs=[], feedback=[]),
+     dict(task='t1', name='a1', kind='task', values=['v0'], inputs=[], feedback=[]),
+     dict(task='t2', name='a2', kind='task', values=['v0'], inputs=[(0, None), (1, 'v0')], feedback=[])],
+]
+
+
+def small_alphabet(n):
+    syms = [('org', i, None, [1]) for i in range(n)]
+    syms += [('org', 0, None, [1, 2]), ('disp',), ('reply0', 'success-new'), ('reply0', 'success'),
+             ('reply0', 'failure'), ('replyL', 'success')]
+    return syms
+
+
+def _small_worker(args):
+    """runs a slice of the exhaustive enumeration in its own process"""
+    import io
+    import itertools
+    import logging
+    import sys
+
+    k, length, lo, hi, want, seed = args
+    logging.disable(logging.CRITICAL)
+    algs = SMALL[k]
+    old = sys.stdout
+    sys.stdout = io.StringIO()
+    try:
+        env = E.Env(algs, ['T1', 'T2'])
+    finally:
+        sys.stdout = old
+    res = common.Result()
+    r = common.rng(seed, 'small')
+    syms = small_alphabet(len(algs))
+    lines, pending = [], []
+    try:
+        for idx, seq in enumerate(itertools.product(syms, repeat=length)):
+            if idx < lo:
+                continue
+            if idx >= hi:
+                break
+            run_history(env, res, want, algs, list(seq), r, lines, pending, 'exhaustive')
+    finally:
+        env.close()
+    return lines, pending, res
+
+
+def exhaustive(res, want, ctx):
+    import multiprocessing
+
+    jobs = []
+    for k in range(len(SMALL)):
+        syms = small_alphabet(len(SMALL[k]))
+        for length in (3, 4, 5):
+            total = len(syms) ** length
+            parts = 1 if total < 2000 else 16
+            step = (total + parts - 1) // parts
+            for i in range(parts):
+                jobs.append((k, length, i * step, min(total, (i + 1) * step), want, ctx['seed']))
+    out = []
+    with multiprocessing.Pool(16) as pool:
+        for lines, pending, sub in pool.imap_unordered(_small_worker, jobs):
+            out.append((lines, pending))
+            res.evaluations += sub.evaluations
+            res.nontrivial |= sub.nontrivial
+            for h in sub.hits:
+                res.hit(h['sig'], h['what'], h['replay'])
+            for k2, v in sub.stats.items():
+                res.count(k2, v)
+    res.exhaustive = False
+    return out
 
 
 def replay_case(rep, res, want):
